@@ -176,7 +176,7 @@ MatchesTag(M, v) ==
                              IF M[2][i][1] = "lenum" THEN v = <<"enum", M[2][i][2][2], M[2][i][3]>> ELSE M[2][i] = v
     [] M[1] \in {"newtype"} -> MatchesTag(M[3], v)
     [] M[1] \in {"final", "annotated"} -> MatchesTag(M[2], v)
-    [] M[1] = "fwd" -> MatchesTag(M[3], v)
+    [] M[1] \in {"fwd", "tvarc", "tvarb"} -> MatchesTag(M[3], v)
     [] OTHER -> FALSE
 
 PackMembers(Ms, cx, v, i) ==
@@ -267,7 +267,7 @@ PackB(T, cx, v) ==
     [] T[1] = "union" -> PackMembers(T[2], cx, v, 1)
     [] T[1] = "newtype" -> Pack(T[3], cx, v)
     [] T[1] \in {"final", "annotated"} -> Pack(T[2], cx, v)
-    [] T[1] = "fwd" -> Pack(T[3], cx, v)          \* forward reference <<"fwd", name, T>>: the class is defined later, same meaning
+    [] T[1] \in {"fwd", "tvarc", "tvarb"} -> Pack(T[3], cx, v)          \* forward reference <<"fwd", name, T>>: the class is defined later, same meaning
     [] T[1] = "dc" -> PackDC(T, cx, v)
 
 \* ---- IsBasic: only str int float bool None list dict (C02) -- "bag" is a list in unspecified order
